@@ -58,6 +58,16 @@ impl Config {
 
         add_project(root_project_dir.clone(), &mut projects)?;
 
+        let mut project_names = std::collections::HashSet::new();
+        for project_name in projects.values().flat_map(|project| &project.name) {
+            if !project_names.insert(project_name) {
+                return Err(anyhow!(
+                    "Project name {} is used by more than one project",
+                    project_name
+                ));
+            }
+        }
+
         Ok(Self {
             root_project_dir,
             projects,
